@@ -98,10 +98,27 @@ class Config:
 
     def make_args(self, eps=None, suffix=""):
         """eps: {argindex: {mask: prefix}}"""
-        return [_build_sym(a, "x%d%s" % (i, suffix), (eps or {}).get(i)) for i, a in enumerate(self.args)]
+        out = [_build_sym(a, "x%d%s" % (i, suffix), (eps or {}).get(i)) for i, a in enumerate(self.args)]
+        # pinned primal values (pin_args: (argument position, entry index / key or None, value)): every check that builds its
+        # symbolic arguments through here decides its claim AT that value - value-dependent branches of the real code
+        # (truthiness tests, == comparisons) are explored under it instead of being assumed away as non-generic
+        for (ai, idx, val) in getattr(self, "pin_args", ()):
+            from .sym import CTX, Fr as _Fr, toz as _toz
+
+            e = out[ai][idx] if idx is not None else out[ai]
+            CTX.add_assume(_toz(e.c[0]) == _toz(_Fr(val)), "pinned value")
+        return out
 
     def float_args(self, env):
-        return [_build_float(a, "x%d" % i, env) for i, a in enumerate(self.args)]
+        out = [_build_float(a, "x%d" % i, env) for i, a in enumerate(self.args)]
+        for (ai, idx, val) in getattr(self, "pin_args", ()):  # float64 replays run at the pinned value as well
+            if idx is None:
+                out[ai] = float(val)
+            elif isinstance(out[ai], tuple):
+                out[ai] = tuple(float(val) if j == idx else e for j, e in enumerate(out[ai]))
+            else:
+                out[ai][idx] = float(val)
+        return out
 
     def float_dir(self, k, env, prefix="d"):
         """float structure of argument k filled from the variables prefix+name (missing -> 0)"""
